@@ -87,7 +87,7 @@ def _sep(rng, enc, kind):
 
 def gen_cases(tier, seed):
     rng = random.Random(f'c19-{seed}')
-    n = 240 if tier == 'quick' else 9000
+    n = 480 if tier == 'quick' else 9000
     cases = []
     # deterministic probe of the overlapping-separator behaviour (so a listed
     # known finding is re-observed on every run, and a repair is noticed)
